@@ -46,7 +46,7 @@ type c11Node struct {
 	Pre   string    `json:"pre,omitempty"`  // "" | plain | stream
 	Post  string    `json:"post,omitempty"` // "" | plain | stream
 	Body  []c11Op   `json:"body,omitempty"`
-	Sub   *c11Graph `json:"sub,omitempty"` // the node is a nested graph
+	Sub   *c11Graph `json:"sub,omitempty"`   // the node is a nested graph
 	Rerun bool      `json:"rerun,omitempty"` // resume family: the body returns InterruptAndRerun the first time
 	Role  string    `json:"role,omitempty"`  // eager family: holder | witness | late (barrier roles)
 }
@@ -54,7 +54,7 @@ type c11Node struct {
 type c11Graph struct {
 	Mode     string    `json:"mode"` // pregel | dag | workflow
 	Stateful bool      `json:"stateful"`
-	Nodes    []c11Node `json:"nodes"` // topological order; the last node feeds END
+	Nodes    []c11Node `json:"nodes"`            // topological order; the last node feeds END
 	Before   []string  `json:"before,omitempty"` // resume family: interrupt options of this graph level
 	After    []string  `json:"after,omitempty"`
 }
